@@ -3,6 +3,7 @@ package props
 
 import (
 	"fmt"
+	"math/bits"
 	"strings"
 
 	sdk "github.com/cosmos/cosmos-sdk/types"
@@ -19,6 +20,8 @@ type G struct {
 	W *world.World
 	// Bias is a per-property knob table (percentages).
 	Bias map[string]int
+	// proofs made while generating the current tx
+	proofs []world.ProofReg
 }
 
 func (g *G) bias(k string, def int) int {
@@ -28,6 +31,27 @@ func (g *G) bias(k string, def int) int {
 	return def
 }
 
+// rapid's integer generators are deliberately biased towards small values and boundaries;
+// the weights in this package are meant literally, so every decision is drawn from fair bits
+// (rapid.Bool is unbiased). Shrinking still works: bits shrink to false, i.e. towards 0 /
+// the first alternative.
+var bitGens [65]*rapid.Generator[uint64]
+
+func bitsGen(k int) *rapid.Generator[uint64] {
+	if bitGens[k] == nil {
+		bitGens[k] = rapid.Custom(func(t *rapid.T) uint64 {
+			var v uint64
+			for i := 0; i < k; i++ {
+				if rapid.Bool().Draw(t, "b") {
+					v |= 1 << uint(i)
+				}
+			}
+			return v
+		})
+	}
+	return bitGens[k]
+}
+
 func (g *G) chance(label string, pct int) bool {
 	if pct <= 0 {
 		return false
@@ -35,14 +59,15 @@ func (g *G) chance(label string, pct int) bool {
 	if pct >= 100 {
 		return true
 	}
-	return rapid.IntRange(0, 99).Draw(g.T, label) < pct
+	return int(bitsGen(10).Draw(g.T, label)*100/1024) < pct
 }
 
 func (g *G) intn(label string, n int) int {
 	if n <= 1 {
 		return 0
 	}
-	return rapid.IntRange(0, n-1).Draw(g.T, label)
+	k := bits.Len(uint(n-1)) + 4
+	return int(bitsGen(k).Draw(g.T, label) % uint64(n))
 }
 
 func pick[T any](g *G, label string, xs []T) T {
@@ -180,7 +205,8 @@ func (g *G) wrapTx(msgs []sdk.Msg, note string, aminoOK bool) *world.TxStep {
 		exec = 1 + g.acct("grantee")
 	}
 	signers, how := g.signersFor(msgs, exec, g.bias("right-signers", 80), aminoOK && exec == 0)
-	ts := &world.TxStep{Signers: signers, Fee: g.fee("fee"), Exec: exec, Note: note + " signers=" + how}
+	ts := &world.TxStep{Signers: signers, Fee: g.fee("fee"), Exec: exec, Note: note + " signers=" + how, Proofs: g.proofs}
+	g.proofs = nil
 	for _, m := range msgs {
 		ts.Msgs = append(ts.Msgs, world.EncodeMsg(m))
 	}
@@ -215,4 +241,45 @@ func (g *G) genBankSend() *world.TxStep {
 	msg := world.BankSend(g.bech(from), g.bech(to), amt)
 	signers, how := g.signersFor([]sdk.Msg{msg}, 0, 90, true)
 	return &world.TxStep{Msgs: []world.MsgJSON{world.EncodeMsg(msg)}, Signers: signers, Fee: g.fee("fee"), Note: "bank-send signers=" + how}
+}
+
+// genMixedTx draws a transaction mixing messages of all three custom modules, with fee and
+// fee-payer variations (C15).
+func (g *G) genMixedTx() *world.TxStep {
+	n := 2 + g.intn("nmixed", 3)
+	var msgs []sdk.Msg
+	note := "mixed:"
+	amino := true
+	for i := 0; i < n; i++ {
+		var m sdk.Msg
+		var nt string
+		switch g.weighted("module", "aol", 4, "did", 3, "pnft", 3) {
+		case "aol":
+			m, nt = g.genAolMsg()
+		case "did":
+			m, nt = g.genDidMsg()
+		default:
+			m, nt = g.genPnftMsg()
+			amino = false
+		}
+		msgs = append(msgs, m)
+		note += nt + ";"
+	}
+	ts := g.wrapTx(msgs, note, amino)
+	switch g.weighted("fee-variant", "keep", 6, "huge", 2, "payer", 2) {
+	case "huge":
+		ts.Fee = "999999999999999umed"
+	case "payer":
+		ts.FeePayer = g.bech(g.acct("explicit-payer"))
+		// the explicit payer must sign as well; add it when it is not yet a signer
+		idx := g.W.AcctIndex(ts.FeePayer)
+		has := false
+		for _, s := range ts.Signers {
+			has = has || s.Acct == idx
+		}
+		if !has && g.chance("payer-signs", 80) {
+			ts.Signers = append(ts.Signers, simnet.SignerSpec{Acct: idx})
+		}
+	}
+	return ts
 }
